@@ -170,6 +170,12 @@ class SchedQueue:
         self.ctl.point('join', lambda: self.unfinished == 0, q=self.name)
         self.ctl.log('join', q=self.name, unfinished=self.unfinished)
 
+    @property
+    def unfinished_tasks(self):
+        """queue.Queue's public counter: reading it is an observation another thread can get in between (a scheduling point)"""
+        self.ctl.point('peek', None, q=self.name)
+        return self.unfinished
+
     def qsize(self):
         return len(self.items)
 
